@@ -81,6 +81,9 @@ ALPHABET = [
     b' OK ' + GUID,                                     # 26 leading blank: junk
     b'ERROR',                                           # 27
     b'OK 0123456789ABCDEF0123456789abcDEF',             # 28 upper-case hex digits are hex digits
+    b'ERROR "policy 100% strict, could not parse %s"',   # 29 explanations are free text
+    b'REJECTED EXTERNAL ANONYMOUS',                     # 30
+    b'ERROR {0} {name} \\x41 %(mech)s',                   # 31
 ]
 PREF = [b'EXTERNAL', b'DBUS_COOKIE_SHA1', b'ANONYMOUS']
 KNOWN_CMDS = (b'REJECTED', b'OK', b'DATA', b'ERROR', b'AGREE_UNIX_FD')
@@ -347,7 +350,8 @@ def scenario(ctx):
         script = [ALPHABET[i] for i in pre['lines']]
     else:
         n = 1 + ds.choose(20)
-        w = [4, 4, 2, 3, 3, 1, 1, 1, 1, 1, 2, 1, 2, 1, 1, 1, 1, 1, 1, 1, 0.7, 0.7, 0.7, 0.7, 1, 1, 0.7, 1, 1.5]
+        w = [4, 4, 2, 3, 3, 1, 1, 1, 1, 1, 2, 1, 2, 1, 1, 1, 1, 1, 1, 1, 0.7, 0.7, 0.7, 0.7, 1, 1, 0.7, 1, 1.5,
+             1.5, 1, 1]
         script = [ALPHABET[ds.weighted(w)] for _ in range(n)]
     ctx.config.update(script=[s.decode('latin1') for s in script])
     todo = list(script)
